@@ -556,7 +556,11 @@ func (rn *runner) execute(region *core.RegionInfo, steps []operator.OpStep) (coq
 				rn.oc.SendScheduleCommand(cur, s, "verif")
 				msgs := rn.rec.Collect()
 				if len(msgs) > 1 {
-					panic("more than one command for one step")
+					d := ""
+					for _, m := range msgs {
+						d += fmt.Sprintf(" [region %d epoch %v: %s]", m.GetRegionId(), m.GetRegionEpoch(), strings.TrimSpace(coqCmd(m)))
+					}
+					panic("more than one command for one step " + s.String() + ":" + d)
 				}
 				if len(msgs) == 1 {
 					msg = msgs[0]
